@@ -7,6 +7,7 @@ package main
 import (
 	"encoding/json"
 	"fmt"
+	"net"
 	"os"
 	"sort"
 	"strings"
@@ -71,6 +72,8 @@ type result struct {
 	dropped bool
 	rounds  int
 	note    string
+
+	downstream bool
 }
 
 func uidFor(seed uint64, i int) gateway.UniqueID {
@@ -133,6 +136,7 @@ func runScen(s Scen) (res result) {
 
 	var B *netsim.Node
 	var raw *rawPeer
+	var cut *netsim.CutDialer
 	startB := func() bool {
 		if s.Attack == "malformed" {
 			r, err := rawDial(ipB, V.Addr(), t.Env.Genesis.ID(), uidFor(s.Seed, 1))
@@ -145,6 +149,14 @@ func runScen(s Scen) (res result) {
 		}
 		bs, bcm := t.Env.NewManager()
 		atk.l.Manager = bcm
+		bopts := []syncer.Option{syncer.WithSyncInterval(time.Hour)}
+		if s.Attack == "cut-conn" {
+			// the peer serves honest data, but its connection dies once it has written a given number of bytes:
+			// after the handshake, between two answers, or in the middle of one
+			budgets := []int64{200, 420, 700, 1100, 1800, 3000, 5000, 9000, 16000, 30000}
+			cut = &netsim.CutDialer{Inner: &net.Dialer{LocalAddr: &net.TCPAddr{IP: net.ParseIP(ipB)}}, Budget: budgets[s.K%len(budgets)], Times: 1}
+			bopts = append(bopts, syncer.WithDialer(cut))
+		}
 		atk.l.mu.Lock()
 		atk.l.rounds = 0
 		if atk.relay == nil {
@@ -153,14 +165,14 @@ func runScen(s Scen) (res result) {
 		atk.l.mu.Unlock()
 		nb, err := netsim.Start("byzantine", ipB, t.Env, bs, bcm, netsim.Options{
 			Wrap: func(*chain.Manager) syncer.ChainManager { return atk.l },
-			Opts: []syncer.Option{syncer.WithSyncInterval(time.Hour)}, UID: uidFor(s.Seed, 1)})
+			Opts: bopts, UID: uidFor(s.Seed, 1)})
 		if err != nil {
 			res.skipped = "cannot start byzantine peer: " + err.Error()
 			return false
 		}
 		B = nb
 		B.PS.Trusted[V.IP] = true
-		if s.BDials {
+		if s.BDials || s.Attack == "cut-conn" {
 			err = B.Connect(V)
 		} else {
 			err = V.Connect(B)
@@ -235,6 +247,24 @@ func runScen(s Scen) (res result) {
 	}()
 
 	// ---- phase 1: the Byzantine peer
+	// in the mixed scenarios and in every announcement attack an honest node W sits behind the victim (its only peer): whatever the victim relays
+	// while under attack, W must not be harmed, must not ban the victim, and must end on the honest chain too
+	var W *netsim.Node
+	ipW := netsim.IPFor(s.Slot, 5)
+	if (s.Mixed || strings.HasPrefix(s.Attack, "relay-")) && s.Attack != "malformed" {
+		ws, wcm := netsim.NewChain(t.Env, t, v0)
+		// (same request-size option as the victim: a node that asks for more blocks per request than its peer is
+		// willing to serve cannot sync from it — the homogeneous-configuration assumption of checks/C12.json)
+		nw, err := netsim.Start("downstream", ipW, t.Env, ws, wcm, netsim.Options{Opts: vopts, UID: uidFor(s.Seed, 5)})
+		if err == nil {
+			W = nw
+			defer W.Close()
+			V.PS.Trusted[ipW] = true
+			if err := W.Connect(V); err != nil {
+				res.obs["downstream-connect-error"] = err.Error()
+			}
+		}
+	}
 	if s.Mixed {
 		if !startH() {
 			return
@@ -264,7 +294,7 @@ func runScen(s Scen) (res result) {
 			})
 		}
 		if s.Attack == "malformed" {
-			raw.malform(s.Field)
+			raw.malform(s.Field, t, v0)
 			time.Sleep(300 * time.Millisecond)
 		} else if atk.relay != nil {
 			// first the victim's own sync round with B (B serves the victim's chain: nothing to fetch)
@@ -406,6 +436,38 @@ func runScen(s Scen) (res result) {
 	if ps := V.Panics(); len(ps) > 0 {
 		fail("c11-handler-panic", "the victim recovered a panic in an RPC handler: %s", ps[0])
 	}
+	if W != nil {
+		wOK := netsim.WaitUntil(15*time.Second, func() bool {
+			tn, ok := t.ByID[W.CM.Tip().ID]
+			return ok && !mgrsim.Heavier(h, tn)
+		})
+		res.downstream = true
+		if os.Getenv("VERIF_DEBUG") == "2" {
+			for _, c := range W.Rec.Log() {
+				if c.Kind != "history" {
+					fmt.Fprintf(os.Stderr, "  W %s idx=%v ids=%d res=%d err=%q tip=%v\n", c.Kind, c.Index, len(c.IDs), len(c.Res), c.Err, c.TipAft)
+				}
+			}
+			for _, p := range W.S.Peers() {
+				fmt.Fprintf(os.Stderr, "  W peer %s synced=%v err=%v\n", p.ConnAddr, p.Synced(), p.Err())
+			}
+			for _, p := range V.S.Peers() {
+				fmt.Fprintf(os.Stderr, "  V peer %s synced=%v err=%v\n", p.ConnAddr, p.Synced(), p.Err())
+			}
+		}
+		if bs := W.PS.Bans(); len(bs) > 0 {
+			fail("c11-honest-victim-banned-downstream", "the honest node behind the victim (its only peer) banned the victim while the victim was under attack %s/%s: %s", s.Attack, s.Field, bs[0].Reason)
+		}
+		if k, d := netsim.Audit("c11", t, W.CM); k != "" {
+			fail(k, "downstream node: %s (attack %s/%s)", d, s.Attack, s.Field)
+		}
+		if ps := W.Panics(); len(ps) > 0 {
+			fail("c11-handler-panic", "the node behind the victim recovered a panic in an RPC handler: %s", ps[0])
+		}
+		if !wOK && okLive {
+			fail("c11-downstream-stalled", "the victim reached the honest tip but the honest node behind it (whose only peer is the victim) is still on tip %v after 15 s (attack %s/%s)", W.CM.Tip(), s.Attack, s.Field)
+		}
+	}
 	if k, d := netsim.Audit("c11", t, V.CM); k != "" {
 		fail(k, "%s (attack %s/%s)", d, s.Attack, s.Field)
 	}
@@ -445,7 +507,7 @@ func runScen(s Scen) (res result) {
 		// two offences from one address: the /32 subnet must have been banned too
 		sub := false
 		for _, b := range V.PS.Bans() {
-			if strings.HasSuffix(b.Addr, "/32") && b.Reason == "too many strikes" {
+			if strings.HasSuffix(b.Addr, "/32") { // a subnet ban is recognised by the shape of the address, not by the reason text
 				sub = true
 			}
 		}
@@ -464,7 +526,13 @@ func runScen(s Scen) (res result) {
 	if res.fail != nil {
 		return
 	}
-	if s.Mixed || announced || s.Attack == "malformed" {
+	if cut != nil {
+		res.obs["cut-after-bytes"], res.obs["connections-cut"] = cut.Budget, cut.Cuts.Load()
+		if cut.Cuts.Load() > 0 {
+			res.note = "connection-cut-mid-exchange"
+		}
+	}
+	if s.Mixed || announced || s.Attack == "malformed" || s.Attack == "cut-conn" {
 		return // the message order seen by the victim is not determined: monitors only
 	}
 	res.coq = project(s, t, ts, atk, v0, V, H, phases)
@@ -513,6 +581,14 @@ func run(c *hx.Ctx) {
 		}
 		if s.Mixed {
 			res.Count("mixed")
+		}
+		if r.downstream {
+			res.Count("dim:honest-node-behind-victim")
+		}
+		if s.Batch > 0 {
+			res.Count(fmt.Sprintf("victim-batch:%d", s.Batch))
+		} else {
+			res.Count("victim-batch:default")
 		}
 		if r.note != "" {
 			res.Count("observation:" + r.note)
